@@ -48,6 +48,8 @@ fn special_values(rng: &mut Rng) -> f64 {
         4 => *rng.pick(&[9.9999995, 99.9999999, 0.9999995, -9.9999995, 999.9999996, 0.0000005, 0.00000049999, 0.0078125, -0.0078125, 0.001953125]),
         5 => *rng.pick(&[0.0, -0.0, 1.0, -1.0, 0.5, 123456.789, -99.999999, 1e-7, -1e-7, 4.9e-7, 5.1e-7]),
         6 => (rng.below(2_000_001) as f64 - 1e6) * 0.5e-6 * 1.0,                                   // near sixth-decimal ties
+        // enormous but finite (a diverged optimisation writes such numbers): every integer digit is printed, lines get hundreds of bytes long
+        7 => { let d = 16 + rng.below(292) as i32; let m = rng.range(1.0, 10.0); let v = m * 10f64.powi(d); if rng.chance(0.1) { f64::MAX } else if rng.chance(0.5) { -v } else { v } }
         _ => rng.range(-20.0, 20.0),
     }
 }
@@ -63,6 +65,9 @@ pub fn run_write(out: &mut Out, seed: u64, tier: &str) {
         let mut zs = zs;
         // one case in eight holds atoms that coincide exactly (everything at the origin, as `from_atomic_symbols` leaves a molecule;
         // a repeated atom) or differ by less than the printed resolution: every atom is still an atom of the file
+        // one case in sixteen has an atom with all three components enormous (a line of up to ~950 bytes), one with two of them
+        if c % 16 == 9 { let k = rng.below(n); for q in 0..3 { xs[k][q] = rng.range(1.0, 10.0) * 10f64.powi(150 + rng.below(158) as i32) * if rng.chance(0.5) { -1.0 } else { 1.0 }; } }
+        if c % 16 == 1 { let k = rng.below(n); for q in 1..3 { xs[k][q] = rng.range(1.0, 10.0) * 10f64.powi(200 + rng.below(108) as i32) * if rng.chance(0.5) { -1.0 } else { 1.0 }; } }
         match c % 8 {
             3 => { for p in xs.iter_mut() { *p = [0.0, 0.0, 0.0]; } if c % 16 == 3 { for z in zs.iter_mut() { *z = 1; } } }
             5 => { if n >= 2 { xs[1] = xs[0]; zs[1] = zs[0]; } }
@@ -173,15 +178,19 @@ pub fn run_read(out: &mut Out, seed: u64, tier: &str) {
         let title: String = match rng.below(6) { 0 | 1 => "".into(), 2 => "a comment 1 2 3".into(), 3 => "O 0.0 0.0 0.0".into(), 4 => "H 1.5 -2.25 3 trailing".into(), _ => "12".into() };
         let mut lines: Vec<String> = vec![format!("{}", n), title];
         let mut expect: Vec<(usize, [String; 3])> = vec![];
-        for _ in 0..n {
-            let z = 1 + rng.below(118);
-            let v = [rng.range(-50.0, 50.0), if rng.chance(0.1) { 0.0 } else { rng.gauss() * 3.0 }, rng.range(-1e4, 1e4) * if rng.chance(0.5) { 1e-6 } else { 1.0 }];
+        // one file in five is "table-like": coordinates that coincide with other quantities a line or file carries (the element's
+        // atomic number, the atom's index, the atom count, small integers), and more often a further column after z
+        let selfref = c % 5 == 2;
+        for ai in 0..n {
+            let zmax = if selfref && rng.chance(0.5) { 10 } else { 118 }; let z = 1 + rng.below(zmax);
+            let mut v = [rng.range(-50.0, 50.0), if rng.chance(0.1) { 0.0 } else { rng.gauss() * 3.0 }, rng.range(-1e4, 1e4) * if rng.chance(0.5) { 1e-6 } else { 1.0 }];
+            if selfref { for k in 0..3 { if rng.chance(0.6) { v[k] = *rng.pick(&[z as f64, z as f64, ai as f64, (ai + 1) as f64, n as f64, 0.0, 1.0, -1.0, -(z as f64)]); } } }
             let t = [num_spelling(v[0], &mut rng), num_spelling(v[1], &mut rng), num_spelling(v[2], &mut rng)];
             let sep = |rng: &mut Rng| -> String { match rng.below(4) { 0 => " ".into(), 1 => "\t".into(), 2 => "   ".into(), _ => " \t ".into() } };
             let mut l = String::new();
             if rng.chance(0.3) { l += &sep(&mut rng); }
             l += &syms[z - 1]; l += &sep(&mut rng); l += &t[0]; l += &sep(&mut rng); l += &t[1]; l += &sep(&mut rng); l += &t[2];
-            if rng.chance(0.2) { l += &sep(&mut rng); l += *rng.pick(&["0.5", "junk", "1 2 3", "H"]); }
+            if rng.chance(if selfref { 0.6 } else { 0.2 }) { l += &sep(&mut rng); l += *rng.pick(&["0.5", "junk", "1 2 3", "H", "0", "1.0", "frozen", "-0.25 0.1"]); }
             if rng.chance(0.2) { l += &sep(&mut rng); }
             lines.push(l);
             expect.push((z, t));
